@@ -4,8 +4,17 @@
 #[derive(Clone, Copy)] pub struct Captures { pub id: int }
 pub uninterp spec fn fiber_complete(f: FiberRef) -> bool;
 pub uninterp spec fn fiber_top_fun(f: FiberRef) -> FunRef;
-pub enum Ev { StoreIp(FiberRef), LoadIp(FiberRef), Activate(FiberRef), PushFrame(FiberRef, FunRef, Captures, usize) }
-pub struct Vm { pub fiber: FiberRef, pub current_fun: FunRef, pub log: Ghost<Seq<Ev>> }
+#[derive(Clone, Copy)] pub struct WaiterRef { pub id: int }
+/// the fiber a waiter stands for (None: not a fiber's waiter)
+pub uninterp spec fn waiter_fiber(w: WaiterRef) -> Option<FiberRef>;
+pub struct Queue { pub q: Ghost<Seq<FiberRef>> }
+impl Queue {
+  /// VecDeque::push_back / push_front
+  #[verifier::external_body] pub fn push_back(&mut self, f: FiberRef) ensures final(self).q@ == old(self).q@.push(f) { }
+  #[verifier::external_body] pub fn push_front(&mut self, f: FiberRef) ensures final(self).q@ == seq![f] + old(self).q@ { }
+}
+pub enum Ev { StoreIp(FiberRef), LoadIp(FiberRef), Activate(FiberRef), PushFrame(FiberRef, FunRef, Captures, usize), Unblock(FiberRef) }
+pub struct Vm { pub fiber: FiberRef, pub current_fun: FunRef, pub fiber_queue: Queue, pub log: Ghost<Seq<Ev>> }
 impl Vm {
   /// the instruction pointer goes into the top frame of the CURRENT fiber / comes from it
   #[verifier::external_body] pub fn store_ip(&mut self) ensures final(self).log@ == old(self).log@.push(Ev::StoreIp(old(self).fiber)), final(self).fiber == old(self).fiber, final(self).current_fun == old(self).current_fun { }
@@ -15,4 +24,8 @@ impl Vm {
   #[verifier::external_body] pub fn verif_fiber_fun(&self, f: FiberRef) -> (r: FunRef) ensures r == fiber_top_fun(f) { unimplemented!() }
   #[verifier::external_body] pub fn verif_fiber_push_frame(&mut self, closure: FunRef, captures: Captures, arg_count: usize)
     ensures final(self).log@ == old(self).log@.push(Ev::PushFrame(old(self).fiber, closure, captures, arg_count)), final(self).fiber == old(self).fiber, final(self).current_fun == old(self).current_fun { }
+  #[verifier::external_body] pub fn verif_waiter_fiber(&self, w: WaiterRef) -> (r: Option<FiberRef>) ensures r == waiter_fiber(w) { unimplemented!() }
+  #[verifier::external_body] pub fn verif_unblock(&mut self, f: FiberRef) ensures final(self).log@ == old(self).log@.push(Ev::Unblock(f)), final(self).fiber == old(self).fiber,
+    final(self).current_fun == old(self).current_fun, final(self).fiber_queue == old(self).fiber_queue { }
+  #[verifier::external_body] pub fn internal_error<T>(&self, message: &str) -> T requires false { unimplemented!() }
 }
